@@ -40,10 +40,10 @@ RULE = ('ha-tie: C01 generators (random, constructed quotient ties, zero-vote/ca
 PARTIAL = ['Schulze sole-winner monotonicity: REFUTED for votelib\'s ranking by the number of path-wins (C17_schulze_refuted, witnesses C17_schulze_witness / '
            'C17_schulze_witness_loses, known finding C17-schulze-path-win-count, corpus/C17/schulze-winner-*.json); proved instead: the winner keeps every path-win, '
            'gets no path-defeat and its count does not drop (C17_schulze_partial)',
-           'Bucklin / Oklahoma with split shared ranks: proved for the repaired splicing loop also when the CHANGED ballot has shared ranks and the winner, on a rank of its own, moves up past '
-           'plain or shared ranks (C17_bucklin_shared, C17_oklahoma_shared, C17_preference_addition_shared; refuted for the loop as written: C17_bucklin_shared_refuted, finding '
-           'C17-bucklin-splice-offset, fixed); the move of the winner OUT OF a shared rank to a place of its own is decided per explored case (stream sole-winner-shared-ranks; the general '
-           'theorem C17_preference_addition_split_general reduces it to an inequality between means over the variants)',
+           'Bucklin / Oklahoma with split shared ranks: proved for the repaired splicing loop also when the CHANGED ballot has shared ranks - the winner on a rank of its own moves up past '
+           'plain or shared ranks (C17_bucklin_shared, C17_oklahoma_shared, C17_preference_addition_shared) or leaves a shared rank for a place of its own (C17_bucklin_leave_shared, '
+           'C17_oklahoma_leave_shared, C17_preference_addition_leave_shared / _leave_pair); refuted for the loop as written: C17_bucklin_shared_refuted, finding C17-bucklin-splice-offset (fixed). '
+           'Other single-ballot improvements of a ballot with shared ranks (e.g. several steps at once that are not a chain of these) fall under C17_preference_addition_split_general per case',
            'Bucklin with a new ballot that ranks further candidates below the winner: refuted (C17_bucklin_added_full_refuted, the participation failure of Bucklin); proved for the bullet vote and for any such ballot under Oklahoma',
            'vote monotonicity with zero-vote parties or when the larger run ends in a tie or with caps exhausted: relational checker only',
            'positional rules: proved for every built-in scorer that is non-increasing along the ballot - all of Borda, Dowdall, modified Borda, fixed top; Geometric with base >= 1; '
